@@ -2,10 +2,14 @@ package c17
 
 import (
 	"bytes"
+	"context"
+	"crypto/tls"
 	"fmt"
 	"io"
+	"net"
 	"net/http"
 	"net/http/httptest"
+	"os"
 	"path"
 	"sort"
 	"strings"
@@ -47,7 +51,10 @@ type BodyReq struct {
 
 type BodyCase struct {
 	Scopes []Scope   `json:"scopes"`
-	Mode   string    `json:"mode"` // probe | proxy | proxy-buffered
+	Mode   string    `json:"mode"` // probe | proxy | proxy-buffered | proxy-failtimeout (failures are counted against the backend)
+	// H2: the site is an HTTPS site and the client speaks HTTP/2; a request with a chunk list then has a body
+	// of undeclared length (no content-length header), one without announces its length
+	H2 bool `json:"h2,omitempty"`
 	Reqs   []BodyReq `json:"reqs"`
 }
 
@@ -171,7 +178,11 @@ func nextID() string {
 
 func runBody(c *BodyCase) (nontrivial int, err error) {
 	var cf strings.Builder
-	cf.WriteString("http://localhost:0 {\n\tlimits {\n")
+	if c.H2 {
+		cf.WriteString("https://localhost:0 {\n\ttls self_signed\n\tlimits {\n")
+	} else {
+		cf.WriteString("http://localhost:0 {\n\tlimits {\n")
+	}
 	for _, s := range c.Scopes {
 		fmt.Fprintf(&cf, "\t\tbody %s %d\n", s.Path, s.Limit)
 	}
@@ -181,11 +192,14 @@ func runBody(c *BodyCase) (nontrivial int, err error) {
 	switch c.Mode {
 	case "probe":
 		cf.WriteString("\tzz_probe\n")
-	case "proxy", "proxy-buffered":
+	case "proxy", "proxy-buffered", "proxy-failtimeout":
 		backend = httptest.NewServer(rb)
 		defer backend.Close()
 		if c.Mode == "proxy" {
 			fmt.Fprintf(&cf, "\tproxy / %s\n", backend.URL)
+		} else if c.Mode == "proxy-failtimeout" {
+			// a client's oversized body is the client's fault: it must not count against the backend
+			fmt.Fprintf(&cf, "\tproxy / %s {\n\t\tfail_timeout 30s\n\t\tmax_fails 1\n\t}\n", backend.URL)
 		} else {
 			// two hosts + try_duration: the proxy buffers the body before forwarding
 			fmt.Fprintf(&cf, "\tproxy / %s %s {\n\t\ttry_duration 300ms\n\t\ttry_interval 5ms\n\t}\n", backend.URL, backend.URL)
@@ -200,7 +214,24 @@ func runBody(c *BodyCase) (nontrivial int, err error) {
 		return 0, fmt.Errorf("HARNESS: start: %v\n%s", e, cf.String())
 	}
 	defer srv.Stop(inst)
-	addr := srv.Loopback(srv.Addrs(inst)[0])
+	addr := ""
+	for _, a := range srv.Addrs(inst) {
+		if srv.PortOf(a) != "80" { // an HTTPS site also gets a redirect listener on :80
+			addr = srv.Loopback(a)
+		}
+	}
+	var h2 *http.Client
+	if c.H2 {
+		if os.Getenv("VERIF_NETNS") != "1" {
+			return 0, fmt.Errorf("HARNESS: HTTP/2 cases need a private network namespace")
+		}
+		tr := &http.Transport{TLSClientConfig: &tls.Config{InsecureSkipVerify: true, ServerName: "localhost", NextProtos: []string{"h2"}}, ForceAttemptHTTP2: true,
+			DialContext: func(ctx context.Context, network, _ string) (net.Conn, error) {
+				return (&net.Dialer{Timeout: 5 * time.Second}).DialContext(ctx, network, addr)
+			}}
+		defer tr.CloseIdleConnections()
+		h2 = &http.Client{Transport: tr, Timeout: 20 * time.Second}
+	}
 	for _, req := range c.Reqs {
 		scope, limited, nmatch := matchScope(c.Scopes, req.Path)
 		if limited && (abs(req.Len-scope.Limit) <= 1 || nmatch >= 2) {
@@ -213,9 +244,38 @@ func runBody(c *BodyCase) (nontrivial int, err error) {
 			extra = append(extra, [2]string{"X-Probe", probe.Encode(&probe.Script{ID: id, ReadSizes: req.ReadSizes, Status: 200, Chunks: [][]byte{[]byte("done")}})})
 		}
 		// fresh connection: an over-limit request may close it
-		resp, e := srv.Once(addr, "POST", rawRequest(req, id, extra, "localhost"))
-		if e != nil {
-			return nontrivial, fmt.Errorf("request %+v: no well-formed response: %v", req, e)
+		var resp *srv.Resp
+		if h2 != nil {
+			var rd io.Reader = bytes.NewReader(body)
+			if req.Chunks != nil {
+				rd = struct{ io.Reader }{rd} // a plain reader: net/http cannot tell its length and sends no content-length
+			}
+			hreq, e := http.NewRequest("POST", "https://localhost"+wirePath(req.Path, req.Esc), rd)
+			if e != nil {
+				return nontrivial, fmt.Errorf("HARNESS: %v", e)
+			}
+			hreq.Header.Set("X-Case-Id", id)
+			for _, kv := range extra {
+				hreq.Header.Set(kv[0], kv[1])
+			}
+			hresp, e := h2.Do(hreq)
+			if e != nil {
+				// an over-limit upload may be cut by a stream reset before the response is read: nothing to compare then
+				if limited && req.Len > scope.Limit {
+					probe.Take(id)
+					continue
+				}
+				return nontrivial, fmt.Errorf("request %+v over HTTP/2: no response: %v", req, e)
+			}
+			b, _ := io.ReadAll(hresp.Body)
+			hresp.Body.Close()
+			resp = &srv.Resp{Status: hresp.StatusCode, Header: hresp.Header, Body: b}
+		} else {
+			var e error
+			resp, e = srv.Once(addr, "POST", rawRequest(req, id, extra, "localhost"))
+			if e != nil {
+				return nontrivial, fmt.Errorf("request %+v: no well-formed response: %v", req, e)
+			}
 		}
 		over := limited && req.Len > scope.Limit
 		desc := fmt.Sprintf("request %+v (scope %+v, matched=%v)", req, scope, limited)
@@ -280,7 +340,8 @@ var limitVals = []int{1, 2, 5, 16, 63, 64, 1000, 4095, 4096, 4097, 32767, 32768,
 
 func genBodyCase(t *rapid.T) *BodyCase {
 	c := &BodyCase{}
-	c.Mode = rapid.SampledFrom([]string{"probe", "probe", "proxy", "proxy-buffered"}).Draw(t, "mode")
+	c.Mode = rapid.SampledFrom([]string{"probe", "probe", "proxy", "proxy-buffered", "proxy-failtimeout"}).Draw(t, "mode")
+	c.H2 = rapid.IntRange(0, 4).Draw(t, "h2") == 0
 	ns := rapid.IntRange(1, 4).Draw(t, "nscopes")
 	seen := map[string]bool{}
 	for i := 0; i < ns; i++ {
